@@ -1,4 +1,4 @@
-From LV Require Import Base.Buf Conf.ConfModel Conf.ConfInst.
+From LV Require Import Base.Buf Conf.ConfModel Conf.ConfInst Temp.TempModel.
 Require Extraction.
 Require Import ExtrOcamlBasic.
-Extraction "c09_model.ml" num_anchor istep iconf0 ifind vstore_blocks s16.
+Extraction "c09_model.ml" num_anchor istep iconf0 ifind vstore_blocks s16 temp_file env2 world0 fd_mode.
